@@ -38,6 +38,15 @@ NULL = "NULL"
 
 # ------------------------------------------------------------------ values
 def sval(v):
+    """text cell: abstract code i -> "s<i>"; symbolic results of concat / trimstr are realised here"""
+    if isinstance(v, list):
+        if v[0] == "cat":
+            return sval(v[1]) + sval(v[2])
+        if v[0] == "trim":
+            return sval(v[1])[int(v[2]):int(v[3])]
+        raise ValueError(v)
+    if v == "nan":
+        return "nan"
     return None if v == NULL else "s%d" % v
 
 
@@ -158,7 +167,16 @@ def etext(e, nm=IDENT):
     if t == "t":
         return "(%s).%s(%s, %s)" % (etext(e[2], nm), e[1], etext(e[3], nm), etext(e[4], nm))
     if t == "in":
+        inner = e[1]
+        if inner[0] == "c" and inner[1] in ("g", "h", "t", "h2", "src"):      # text column: the list holds text values
+            return "(%s).is_in([%s])" % (etext(inner, nm), ", ".join('"s%d"' % v for v in e[2]))
         return "(%s).is_in([%s])" % (etext(e[1], nm), ", ".join(str(v) for v in e[2]))
+    if t == "cat":
+        return "(%s).concat(%s)" % (etext(e[1], nm), etext(e[2], nm))
+    if t == "trim":
+        return "(%s).trimstr(%d, %d)" % (etext(e[1], nm), e[2], e[3])
+    if t == "mapv":
+        return '(%s).mapv({"s0": 1, "s1": 2}, 0)' % etext(e[1], nm)
     raise ValueError("unknown expr tag %r" % (t,))
 
 
